@@ -1242,6 +1242,12 @@ impl DtlsInner {
         ctx: &mut HandshakeContext,
         is_client: bool,
     ) -> Result<()> {
+        // The handshake completes exactly once (no renegotiation): a further Finished must
+        // not re-publish the write epoch/sequence and thereby reuse record sequence numbers.
+        if self.write_epoch.load(Ordering::SeqCst) != 0 {
+            return Ok(());
+        }
+
         let mut body = msg.body.clone();
         let finished = match Finished::decode(&mut body) {
             Ok(f) => f,
